@@ -862,7 +862,7 @@ class Ctl(Harness):
                     pen = o["final"].get("penalty", 0.0)
                     selection_rules(lambda cl, cond: C("C03", "e2e:" + cl, cond),
                                     [lift(f) for f in fvals], [lift(v) for v in vvals], lift(pen), lift(tol),
-                                    match[0], list(range(N)))
+                                    match[0], list(range(N)), margin=1e-12)
         # ---- C01 (observable points) ------------------------------------------
         if feasible_bounds and b is not None:
             pts = [r["x"] for r in o["log"] if r["t"] in ("fun", "con", "cb")] + [rx]
